@@ -117,6 +117,7 @@ type series struct {
 	nDisc  int // disconnected events expected so far
 	nConn  int
 	opFrom int // log position where the current generation's operator lines start
+	nLst   int // event listeners attached (2 prompt ones, optionally a slow one with a small buffer)
 }
 
 func (s *series) viol(key, what string) {
@@ -380,7 +381,7 @@ func (s *series) judgeGen(n int, g Gen, from, to int, atts []*bk.Attempt) {
 	if full {
 		s.nConn++
 	}
-	for l := 0; l < 2; l++ {
+	for l := 0; l < s.nLst; l++ {
 		want := s.nDisc
 		_, ok := s.w.Log.Wait(0, bk.Bound, func(e bk.Event) bool {
 			if e.Kind == "ev" && e.N == l && e.S == string(iobroker.EventTypeDisconnected) {
@@ -403,7 +404,7 @@ func (s *series) finish() {
 			runtime.Gosched()
 		}
 		time.Sleep(2 * time.Millisecond)
-		for l := 0; l < 2; l++ {
+		for l := 0; l < s.nLst; l++ {
 			var d, c int
 			for _, e := range w.Log.Snapshot() {
 				if e.Kind == "ev" && e.N == l {
@@ -413,6 +414,20 @@ func (s *series) finish() {
 					case string(iobroker.EventTypeConnected):
 						c++
 					}
+				}
+			}
+			if l > 0 {
+				// every listener sees the same events in the same order
+				var a, b []string
+				for _, e := range w.Log.Snapshot() {
+					if e.Kind == "ev" && e.N == 0 {
+						a = append(a, e.S)
+					} else if e.Kind == "ev" && e.N == l {
+						b = append(b, e.S)
+					}
+				}
+				if strings.Join(a, ",") != strings.Join(b, ",") && d == s.nDisc && c == s.nConn {
+					s.viol("listeners-disagree-on-event-order", fmt.Sprintf("listener %d received %v, listener 0 received %v", l, b, a))
 				}
 			}
 			if d != s.nDisc {
@@ -452,7 +467,14 @@ func runSeries(r *mon.Run, engine string, idx int, gens []Gen, och int, leak boo
 		r.Inconclusive(err.Error())
 		return
 	}
-	s := &series{r: r, engine: engine, idx: idx, w: w, gens: gens, och: och, leak: leak}
+	s := &series{r: r, engine: engine, idx: idx, w: w, gens: gens, och: och, leak: leak, nLst: 2}
+	if idx%2 == 1 {
+		// a third listener with room for 1-3 events that looks at them only every few
+		// milliseconds: it must still get every event, in order
+		w.AddSlowListener(1+idx/2%3, time.Duration(1+idx/6%3)*time.Millisecond)
+		s.nLst = 3
+		r.Count("series_with_slow_listener", 1)
+	}
 	s.x = bk.NewExec(w, s.viol)
 	s.x.NoAdmissionVerdicts = true
 	for n, g := range gens {
